@@ -116,6 +116,48 @@ def run(chk):
         mt = o.compute_mto(ts)
         if not np.all(np.diff(mt) < 0):
             chk.fail("turn-off mass decreases with age", dict(feh=feh, ages=ts.tolist()), mt.tolist())
+    # ---- array form: element i of the result belongs to age i (ages on both sides of a0, any order) ----
+    exprs, meta = [], []
+    for r in rows:
+        feh, a0, a1, a2 = r
+        o = objs[feh]
+        for _ in range(3 if chk.tier == "quick" else 12):
+            n = rng.choice([2, 3, 5, 8, 13])
+            ts = [float(rng.choice([0.0, a0 * 0.5, a0, a0 * (1 + 10 ** rng.uniform(-9, 0)), 10 ** rng.uniform(math.log10(a0), 4.2),
+                                    10 ** rng.uniform(0, 4.2)])) for _ in range(n)]
+            if rng.random() < 0.3:
+                ts = sorted(ts)
+            case = dict(feh=feh, a=[a0, a1, a2], ages=ts)
+            chk.note_distinct(case)
+            for form in ("ndarray", "list"):
+                try:
+                    got = [float(x) for x in o.compute_mto(np.array(ts) if form == "ndarray" else ts)]
+                except Exception as e:  # noqa
+                    if form == "ndarray":
+                        chk.fail("turn-off masses of an array of ages are returned without raising", case, dict(error=type(e).__name__, msg=str(e)[:80]))
+                    continue
+                one = [float(o.compute_mto(np.array(t))) for t in ts]
+                if not C.all_same(got, one):
+                    chk.fail("turn-off mass of an array of ages equals the element-wise turn-off masses (same order)", dict(case, form=form),
+                             dict(array=got, elementwise=one))
+                if form == "ndarray":
+                    exprs.append("map (mto (O:=F_ops) %s) %s" % (" ".join(map(C.fl, [a0, a1, a2])), C.fll(ts)))
+                    meta.append((case, got))
+    vals = C.eval_cases("C14arr", IMPORTS, "", exprs)
+    dis = []
+    for (case, got), v in zip(meta, vals):
+        a0, a1, a2 = case["a"]
+        ok = len(v) == len(got)
+        for t, g, m_ in zip(case["ages"], got, v if ok else []):
+            tol = 1e-9
+            if t > a0:
+                x = math.log(t / a0)
+                tol = 1e-9 + 1e-15 / max(abs(x), 1e-300) / abs(a2)
+            if not (C.close_float(g, float(m_), rtol=tol) or tol > 1e-3):
+                ok = False
+        if not ok:
+            dis.append(dict(input=case, impl=C.jsonable(got), model=C.jsonable(v)))
+    chk.correspondence("map mto (1e-9) vs compute_mto on arrays of ages straddling the shortest lifetime", len(meta), dis)
     # ---- sweep speed actually used, main model and BH-population model --
     from ssptools.masses import Pk
     dis = []
